@@ -1,2 +1,72 @@
+"""C05 binding coverage: the H1 / H2 operands depend on every field the statement says a share is bound to.
+Decided on provenance terms (absence of a source atom in the operand's term proves independence)."""
+from ..lib import *
+from ..terms import TermCx, fmt, short
+from .c04 import next_item, tfield
+
+CORE = "frost_core::"
+
+
 def run(ctx):
-    pass
+    P = ctx.prog
+    f = P.fns.get(CORE + "SigningPackage::<C>::binding_factor_preimages")
+    enc = P.fns.get(CORE + "round1::encode_group_commitments")
+    cbl = P.fns.get(CORE + "compute_binding_factor_list")
+    if f and enc and cbl:
+        v = FnView.get(P, f)
+        oks = [v.cx.operand(rv["ops"][0]) for (b, k, rv) in ret_writes(f) if k == "ok"]
+        t = oks[0] if oks else ("unknown", "")
+        # closure return (the per-identifier preimage) with the captured prefix
+        clo = [s for s in subterms(t) if s[0] == "closure"]
+        per = None
+        for c in clo:
+            cf = P.fns.get(c[1])
+            if cf:
+                per = TermCx(P, cf).local(0)
+        srcs = {
+            "group-key": lambda: mentions(t, lambda s: is_call(s, name="serialize") and mentions(s, arg(2))),
+            "message": lambda: mentions(t, fld(arg(1), "message")),
+            "commitment-list": lambda: mentions(t, lambda s: is_call(s, name="encode_group_commitments") and fld(arg(1), "signing_commitments")(s[2][0])),
+            "signer-identifier": lambda: per is not None and mentions(per, lambda s: is_call(s, name="serialize") and mentions(s, lambda u: u == ("arg", 2))),
+            "participant-set(keys)": lambda: mentions(t, lambda s: is_call(s, name="keys") and fld(arg(1), "signing_commitments")(s[2][0])),
+        }
+        for name, fn in srcs.items():
+            ctx.check(bool(fn()), "COVER", f.key, "H1-preimage-depends-on:" + name,
+                      "the binding-factor (H1) preimage no longer depends on the %s: a share would verify in a session "
+                      "that differs in it" % name, f.loc)
+        ve = FnView.get(P, enc)
+        et = [ve.cx.operand(rv["ops"][0]) for (b, k, rv) in ret_writes(enc) if k == "ok"]
+        et = et[0] if et else ("unknown", "")
+        item = next_item(arg(1))
+        for name, pr in (("identifier", lambda s: tfield(item, 0)(s)),
+                         ("hiding-commitment", lambda s: is_field(s, "SigningCommitments", "hiding") and mentions(s, item)),
+                         ("binding-commitment", lambda s: is_field(s, "SigningCommitments", "binding") and mentions(s, item))):
+            ctx.check(mentions(et, pr), "COVER", enc.key, "encoded-list-depends-on:" + name,
+                      "the encoded commitment list no longer depends on every entry's %s" % name, enc.loc)
+        # H1 is applied to exactly that preimage
+        vc = FnView.get(P, cbl)
+        for s in [s for (b, k, rv) in ret_writes(cbl) if k == "ok" for s in subterms(vc.cx.operand(rv["ops"][0])) if s[0] == "closure"]:
+            cf = P.fns.get(s[1])
+            ct = TermCx(P, cf).local(0) if cf else ("unknown", "")
+            ctx.check(mentions(ct, lambda u: is_call(u, name="H1") and u[2][0] == ("field", ("arg", 2), None, "1")), "COVER", cbl.key,
+                      "H1(whole-preimage)", "the binding factor must be H1 of the complete per-signer preimage", cbl.loc)
+    ch = P.fns.get(CORE + "challenge")
+    if ch:
+        v = FnView.get(P, ch)
+        oks = [v.cx.operand(rv["ops"][0]) for (b, k, rv) in ret_writes(ch) if k == "ok"]
+        h = [s for t in oks for s in subterms(t) if is_call(s, name="H2")]
+        op = h[0][2][0] if h else ("unknown", "")
+        for name, pr in (("group-commitment-R", lambda s: is_call(s, name="serialize") and s[2][0] == ("arg", 1)),
+                         ("group-key", lambda s: is_call(s, name="serialize") and mentions(s, arg(2))),
+                         ("message", lambda s: s == ("arg", 3))):
+            ctx.check(mentions(op, pr), "COVER", ch.key, "H2-operand-depends-on:" + name,
+                      "the challenge (H2) input no longer depends on the %s" % name, ch.loc)
+    # the six H1/H2/H4/H5 implementations depend on their argument
+    n = 0
+    for k, f in P.fns.items():
+        for hn in ("H1", "H2", "H3", "H4", "H5"):
+            if k.endswith(" as frost_core::traits::Ciphersuite>::" + hn) and f.has_body:
+                n += 1
+                t = FnView.get(P, f).cx.local(0)
+                ctx.check(mentions(t, arg(1)), "COVER", k, "depends-on-input", "%s ignores its input" % short(k), f.loc)
+    ctx.check(n == 30, "COVER", "workspace", "30-hash-impls", "expected 6x5 H1..H5 implementations, found %d" % n)
